@@ -19,9 +19,9 @@ Definition h_vts (vs ws : list Z) :=
   map (fun v => map (fun w => res_opt (val_to_signed_integer v w)) ws) vs.
 Definition h_twos (vs ws : list Z) :=
   map (fun v => map (fun w => (res_opt (twos_comp_repr v w), res_opt (rev_twos_comp_repr v w))) ws) vs.
-Definition h_to_str (vs : list Z) (fs : list str) (e : option (list (str * Z))) :=
+Definition h_to_str (vs : list Z) (fs : list str) (e : list (str * list (str * Z))) :=
   map (fun v => map (fun f => res_opt (val_to_formatted_str v f e)) fs) vs.
-Definition h_to_val (ds : list str) (fs : list str) (e : option (list (str * Z))) :=
+Definition h_to_val (ds : list str) (fs : list str) (e : list (str * list (str * Z))) :=
   map (fun d => map (fun f => res_opt (formatted_str_to_val d f e)) fs) ds.
 Definition h_b2v (cs : list (str * list (list Z))) :=
   map (fun c => map (fun fl => res_opt (bitpattern_to_val (fst c) fl)) (snd c)) cs.
